@@ -365,8 +365,8 @@ def setup():
     with Lock():
         ok, info = translate()
         print("translate:", "ok" if ok else info)
-        bok, blog, bsec = lake_build(["Alos2"])
-        print(f"lake build Alos2: {'ok' if bok else 'FAILED'} in {bsec:.0f}s")
+        bok, blog, bsec = lake_build(["Alos2", "Alos2.All"])
+        print(f"lake build Alos2 Alos2.All: {'ok' if bok else 'FAILED'} in {bsec:.0f}s")
         if not bok:
             print(blog)
     return 0 if (ok and bok) else 2
